@@ -318,3 +318,7 @@ def check(run, replay=None):
         run.require_counter("outputs_checked_for_definedness", 100)
     finally:
         shutil.rmtree(tmp, ignore_errors=True)
+
+
+# workloads added in seeding rounds 7-10 (DESIGN.md sections 13.9-13.12)
+LEVEL_TEXT = LEVEL_TEXT + " Later additions: gcc's UBSan reports are read from stderr as well as from the sanitizer log; mask_to_coo with negative mask bytes; blob2D coordinates above 46340 (required class)."
